@@ -443,19 +443,32 @@ func runC08(c *Ctx) {
 			return okA && okB && ka == kb
 		}
 		// the step back is taken exactly when the remainder of that same division is negative
-		Instrs(de, func(in ssa.Instruction) {
-			iff, ok := in.(*ssa.If)
+		// (written `if rem < 0 { days-- }`, or `if rem >= 0 { return days }; return days-1`, …:
+		// what is judged is the condition under which the decrement executes)
+		remNegative := func(g Guard) bool {
+			b, ok := g.Cond.(*ssa.BinOp)
 			if !ok || q == nil {
-				return
-			}
-			b, ok := iff.Cond.(*ssa.BinOp)
-			if !ok || b.Op != token.LSS {
-				return
+				return false
 			}
 			k, isK := ConstInt(b.Y)
 			rem, isRem := b.X.(*ssa.BinOp)
-			if isK && k == 0 && isRem && rem.Op == token.REM && sameOperand(rem.X, q.X) && sameOperand(rem.Y, q.Y) {
-				corrected = true
+			if !isK || k != 0 || !isRem || rem.Op != token.REM || !sameOperand(rem.X, q.X) || !sameOperand(rem.Y, q.Y) {
+				return false
+			}
+			return (b.Op == token.LSS && g.Truth) || (b.Op == token.GEQ && !g.Truth)
+		}
+		Instrs(de, func(in ssa.Instruction) {
+			b, ok := in.(*ssa.BinOp)
+			if !ok || b.Op != token.SUB {
+				return
+			}
+			if k, isK := ConstInt(b.Y); !isK || k != 1 {
+				return
+			}
+			for _, g := range GuardsAt(in.Block()) {
+				if remNegative(g) {
+					corrected = true
+				}
 			}
 		})
 		for _, cs := range u.Calls(de, Is("floorDiv", "math.Floor")) {
